@@ -12,7 +12,7 @@ From Oras Require Import Base.Prelude Generated.GC12 Model.TarRoundTrip Model.Fi
 (* Round trip, exactly as the current code behaves: every path of the restored directory
    is the path of the source tree -- same kind, bytes, link target, and mode (minus the umask
    unless PreservePermissions) -- nothing else exists, and extraction does not fail; for every
-   tree with distinct names per directory, permission-bit modes, and relative symlinks that
+   tree with distinct names per directory, modes within 07777 (files) / 01777 (directories), and relative symlinks that
    stay inside and do not pass through other symlinks, any child order, any umask.
    [expected_impl] differs from [expected] at one point: without PreservePermissions the
    directory itself has mode 0777 minus umask (pre-created by ensureDir), see C12_root_mode_refuted. *)
@@ -62,6 +62,15 @@ Theorem C12_root_mode_refuted :
       fs_lookup f' [] <> expected umask false T [].
 Proof. exact root_mode_refuted. Qed.
 Print Assumptions C12_root_mode_refuted.
+
+(* Before the fix, PreservePermissions lost setuid/setgid/sticky (a 01777 directory came back
+   0777): os.Chmod(path, os.FileMode(header.Mode)) passes only the permission bits.
+   Finding "preserve-special-bits", fixed in the repository; [modes_okb] admits 07777 for files
+   and 01777 for directories. *)
+Theorem C12_preserve_special_bits_prefix_refuted :
+  exists m, (m <=? 4095) = true /\ chmod_mode_prefix m <> m /\ chmod_mode m = m.
+Proof. exact chmod_prefix_refuted. Qed.
+Print Assumptions C12_preserve_special_bits_prefix_refuted.
 
 (* Descriptor and unpack; the tar and gzip byte codecs and the digest are parameters with
    their round-trip laws as hypotheses. *)
@@ -174,8 +183,8 @@ Print Assumptions C12_same_bytes_ignorenoname_refuted.
 (* non-vacuity: a tree with nesting, an empty directory, an empty file, a long-ish name and
    relative links (one dangling, one to the parent directory) meets the hypotheses *)
 Definition C12_example_tree : tree :=
-  Dir 493 7 [ (b "z", File (b "zz") 420 1);
-              (b "sub", Dir 448 2 [ (b "empty", Dir 511 3 []);
+  Dir 493 7 [ (b "z", File (b "zz") 2541 1);
+              (b "sub", Dir 448 2 [ (b "empty", Dir 1023 3 []);
                                     (b "e", File [] 256 4);
                                     (b "up", Link (b "../z") 5);
                                     (b "self", Link (b "..") 6) ]);
